@@ -15,7 +15,7 @@ AddTAttr(n, cp, own) == /\ Len(in.tattrs) < MaxTAttrs /\ in.ms = <<>>
                         /\ (n \notin TypeLevelOk => cp = "-")
                         /\ (SpellAll \/ n = "bogus" \/ own = FALSE)            \* spelling is C13's business; only `bogus` depends on it
                         /\ in' = [in EXCEPT !.tattrs = Append(@, [n |-> n, cp |-> cp, own |-> own])]
-AddMember == Len(in.ms) < MaxMembers /\ in' = [in EXCEPT !.ms = Append(@, <<>>)]
+AddMember == Len(in.ms) < MaxMembers /\ in.shape # "unit" /\ in' = [in EXCEPT !.ms = Append(@, <<>>)]
 AddMAttr(n, cp, own) == /\ in.ms # <<>> /\ Len(in.ms[Len(in.ms)]) < MaxMAttrs
                         /\ (n \notin MemberOk => cp = "-")
                         /\ (SpellAll \/ n = "bogus" \/ own = FALSE)
@@ -35,7 +35,7 @@ NoTraits == <<>>
 ProjectTo(i, cp) == [i EXCEPT !.traits = SelectSeq(@, LAMBDA t : t.cp = cp),
                               !.tattrs = SelectSeq(@, LAMBDA x : x.cp \in {"-", cp}),
                               !.ms = [j \in DOMAIN @ |-> SelectSeq(@[j], LAMBDA x : x.cp \in {"-", cp})]]
-EmitProj == in.ms # <<>> => PrintT(<<"CASE", ToJson([in |-> in, pa |-> ProjectTo(in, "A"), pb |-> ProjectTo(in, "B"), faults |-> FaultKeys(in)])>>)
+EmitProj == (in.ms # <<>> \/ in.shape = "unit") => PrintT(<<"CASE", ToJson([in |-> in, pa |-> ProjectTo(in, "A"), pb |-> ProjectTo(in, "B"), faults |-> FaultKeys(in)])>>)
 \* design-level: the projection of a valid input is valid, and projecting never introduces a fault that concerns the kept counterpart only
 ProjectionKeepsValidity == Faults(in) = {} => Faults(ProjectTo(in, "A")) = {} /\ Faults(ProjectTo(in, "B")) = {}
 \* C06: the bundle that defines all conversions for two counterparts
